@@ -1,19 +1,464 @@
-//! case generator for the outstation engine
+//! case generator for the outstation engine: a weighted grammar over every function code the
+//! outstation executes (+ unknown ones, confirms with right / wrong sequence numbers), valid and
+//! invalid object headers, byte-identical repeats at every position, time advances to t-1, t,
+//! t+1 of the armed deadlines, broadcasts of all three modes, foreign masters, disconnects.
+use crate::rng::Rng;
+use crate::util::hex;
 use std::io::Write;
 
-pub fn gen(_thorough: bool, _seed: u64, w: &mut dyn Write) {
-    writeln!(w, "# case 0 kind=smoke").unwrap();
-    for l in [
-        "cfg sol=249 unsolicited=0",
-        "addbin 0 1", "addbin 1 1", "addan 0 2",
-        "rx 1 1024 c0013c0106",
-        "txn bin:0:1:1:-",
-        "rx 1 1024 c1013c0206",
-        "rx 1 1024 c100",
-        "rx 1 1024 c2013c0106",
-        "rx 1 1024 c2018000",
-        "tick 6000",
-    ] {
-        writeln!(w, "{l}").unwrap();
+const OUTSTATION: u16 = 1024;
+
+pub struct GenCfg {
+    pub with_db: bool,
+}
+
+fn ctrl(seq: u8) -> u8 {
+    0xC0 | (seq & 0x0F)
+}
+
+fn g12v1(r: &mut Rng) -> Vec<u8> {
+    let mut v = vec![*r.pick(&[0x01u8, 0x03, 0x04, 0x41, 0x81, 0x00, 0x10, 0x23]), r.range(0, 3) as u8];
+    v.extend_from_slice(&(r.range(0, 5000) as u32).to_le_bytes());
+    v.extend_from_slice(&(r.range(0, 5000) as u32).to_le_bytes());
+    v.push(0);
+    v
+}
+
+fn g41(r: &mut Rng, var: u8) -> Vec<u8> {
+    let mut v: Vec<u8> = match var {
+        1 => (r.next() as i32).to_le_bytes().to_vec(),
+        2 => (r.next() as i16).to_le_bytes().to_vec(),
+        3 => ((r.range(0, 2000) as f32) * 0.5 - 300.0).to_le_bytes().to_vec(),
+        _ => ((r.range(0, 2000) as f64) * 0.25 - 100.0).to_le_bytes().to_vec(),
+    };
+    v.push(0);
+    v
+}
+
+/// 1..3 control headers
+fn control_objects(r: &mut Rng, max_items: usize) -> Vec<u8> {
+    let mut out = Vec::new();
+    let nh = if r.chance(3, 4) { 1 } else { r.range(2, 3) };
+    for _ in 0..nh {
+        let two = r.chance(1, 3);
+        let kind = r.below(5);
+        let n = r.range(1, max_items as u64) as usize;
+        let (g, v) = if kind == 0 { (12u8, 1u8) } else { (41u8, kind as u8) };
+        out.push(g);
+        out.push(v);
+        if two {
+            out.push(0x28);
+            out.extend_from_slice(&(n as u16).to_le_bytes());
+        } else {
+            out.push(0x17);
+            out.push(n as u8);
+        }
+        for _ in 0..n {
+            if two {
+                let idx = if r.chance(1, 4) { *r.pick(&[0u16, 255, 256, 65535]) } else { r.below(20) as u16 };
+                out.extend_from_slice(&idx.to_le_bytes());
+            } else {
+                out.push(if r.chance(1, 5) { 255 } else { r.below(10) as u8 });
+            }
+            if g == 12 {
+                out.extend(g12v1(r));
+            } else {
+                out.extend(g41(r, v));
+            }
+        }
+    }
+    out
+}
+
+fn read_headers(r: &mut Rng) -> Vec<u8> {
+    let table: [&[u8]; 22] = [
+        &[0x3c, 0x01, 0x06],
+        &[0x3c, 0x02, 0x06],
+        &[0x3c, 0x03, 0x06],
+        &[0x3c, 0x04, 0x06],
+        &[0x3c, 0x02, 0x07, 0x01],
+        &[0x3c, 0x03, 0x08, 0x02, 0x00],
+        &[0x3c, 0x04, 0x07, 0x00],
+        &[0x01, 0x00, 0x06],
+        &[0x01, 0x02, 0x06],
+        &[0x01, 0x02, 0x00, 0x00, 0x05],
+        &[0x01, 0x00, 0x01, 0x00, 0x00, 0x10, 0x00],
+        &[0x01, 0x00, 0x00, 0x03, 0x03],
+        &[0x1e, 0x00, 0x06],
+        &[0x1e, 0x01, 0x06],
+        &[0x1e, 0x01, 0x00, 0x00, 0x02],
+        &[0x1e, 0x00, 0x01, 0x00, 0x01, 0xff, 0xff],
+        &[0x02, 0x00, 0x06],
+        &[0x02, 0x01, 0x07, 0x02],
+        &[0x02, 0x00, 0x08, 0x03, 0x00],
+        &[0x20, 0x00, 0x06],
+        &[0x20, 0x01, 0x07, 0x01],
+        &[0x20, 0x00, 0x07, 0x05],
+    ];
+    let n = match r.below(10) {
+        0..=5 => 1,
+        6..=7 => 2,
+        8 => 3,
+        _ => 4,
+    };
+    let mut out = Vec::new();
+    for _ in 0..n {
+        // class polls dominate (integrity / event polls)
+        let h = if r.chance(1, 2) { table[r.below(7) as usize] } else { *r.pick(&table) };
+        out.extend_from_slice(h);
+    }
+    if r.chance(1, 12) {
+        // the classic integrity poll
+        out = vec![0x3c, 0x02, 0x06, 0x3c, 0x03, 0x06, 0x3c, 0x04, 0x06, 0x3c, 0x01, 0x06];
+    }
+    out
+}
+
+fn malformed_objects(r: &mut Rng) -> Vec<u8> {
+    let t: [&[u8]; 12] = [
+        &[0x63, 0x01, 0x06],                   // unknown group
+        &[0x01, 0x09, 0x06],                   // unknown variation
+        &[0x3c, 0x01, 0x07, 0x01],             // g60v1 with a count: invalid qualifier for variation
+        &[0x01, 0x02, 0x99],                   // unknown qualifier
+        &[0x01, 0x02, 0x00, 0x05],             // truncated range
+        &[0x01, 0x02, 0x00, 0x09, 0x03],       // stop < start
+        &[0x3c],                               // truncated header
+        &[0x3c, 0x02],                         // truncated header
+        &[0x0c, 0x01, 0x17, 0x01, 0x05, 0x01], // truncated control object
+        &[0x0c, 0x01, 0x06],                   // g12v1 all objects: invalid qualifier
+        &[0x29, 0x01, 0x28, 0x01],             // truncated count
+        &[0x3c, 0x02, 0x06, 0x63, 0x01, 0x06], // good header then unknown group
+    ];
+    r.pick(&t).to_vec()
+}
+
+struct G<'a> {
+    r: Rng,
+    w: &'a mut dyn Write,
+    seq: u8,
+    last: Option<(u16, u16, Vec<u8>)>,
+    last_select: Option<(u8, Vec<u8>)>,
+    cfg_ctimeout: u64,
+    cfg_stimeout: u64,
+    cfg_rdelay: u64,
+    cfg_keepalive: Option<u64>,
+    gc: GenCfg,
+    next_time: u64,
+    points: Vec<(bool, u16)>,
+}
+
+impl<'a> G<'a> {
+    fn line(&mut self, s: &str) {
+        writeln!(self.w, "{s}").unwrap();
+    }
+
+    fn rx(&mut self, src: u16, dst: u16, frag: Vec<u8>) {
+        self.line(&format!("rx {} {} {}", src, dst, hex(&frag)));
+        if dst == OUTSTATION && !frag.is_empty() {
+            self.last = Some((src, dst, frag));
+        }
+    }
+
+    fn pick_src(&mut self) -> u16 {
+        if self.r.chance(1, 14) { 2 } else { 1 }
+    }
+
+    fn pick_dst(&mut self) -> u16 {
+        match self.r.below(30) {
+            0 => 0xFFFF,
+            1 => 0xFFFE,
+            2 => 0xFFFD,
+            3 => 0xFFFC,
+            4 => 77,
+            _ => OUTSTATION,
+        }
+    }
+
+    fn next_seq(&mut self) -> u8 {
+        let s = self.seq;
+        self.seq = (self.seq + 1) & 0x0F;
+        if self.r.chance(1, 15) { self.r.below(16) as u8 } else { s }
+    }
+
+    fn request(&mut self) {
+        let src = self.pick_src();
+        let dst = self.pick_dst();
+        let seq = self.next_seq();
+        let mut f = vec![ctrl(seq)];
+        let max_items = if self.r.chance(1, 10) { 30 } else { 3 };
+        match self.r.below(40) {
+            0..=9 => {
+                f.push(1);
+                f.extend(read_headers(&mut self.r));
+            }
+            10..=13 => {
+                // SELECT (remembered so that a matching OPERATE can follow)
+                f.push(3);
+                let o = control_objects(&mut self.r, max_items);
+                f.extend(&o);
+                self.last_select = Some((seq, o));
+            }
+            14..=17 => {
+                // OPERATE: matching the last SELECT, or perturbed
+                f.push(4);
+                match self.last_select.clone() {
+                    Some((sseq, o)) if self.r.chance(5, 6) => {
+                        let mut o = o;
+                        match self.r.below(8) {
+                            0 => {
+                                let n = o.len();
+                                o[n - 2] ^= 0x01; // different objects
+                            }
+                            1 => f[0] = ctrl(sseq),            // same seq as the select
+                            2 => f[0] = ctrl(sseq.wrapping_add(2)), // skipped seq
+                            _ => f[0] = ctrl(sseq.wrapping_add(1)),
+                        }
+                        self.seq = (f[0].wrapping_add(1)) & 0x0F;
+                        f.extend(o);
+                    }
+                    _ => f.extend(control_objects(&mut self.r, max_items)),
+                }
+            }
+            18..=20 => {
+                f.push(5);
+                f.extend(control_objects(&mut self.r, max_items));
+            }
+            21 => {
+                f.push(6);
+                f.extend(control_objects(&mut self.r, max_items));
+            }
+            22..=25 => {
+                // WRITE
+                f.push(2);
+                let n = if self.r.chance(2, 3) { 1 } else { 2 };
+                for _ in 0..n {
+                    match self.r.below(9) {
+                        0 | 1 => f.extend_from_slice(&[0x50, 0x01, 0x00, 0x07, 0x07, 0x00]),
+                        2 => f.extend_from_slice(&[0x50, 0x01, 0x00, 0x07, 0x07, 0x01]),
+                        3 => f.extend_from_slice(&[0x50, 0x01, 0x00, 0x04, 0x04, 0x00]),
+                        4 => f.extend_from_slice(&[0x50, 0x01, 0x00, 0x00, 0x0f, 0x00, 0x00]),
+                        5 => {
+                            f.extend_from_slice(&[0x32, 0x01, 0x07, 0x01]);
+                            f.extend_from_slice(&self.r.next().to_le_bytes()[..6]);
+                        }
+                        6 => {
+                            f.extend_from_slice(&[0x32, 0x03, 0x07, 0x01]);
+                            let t = if self.r.chance(1, 4) { 0xFFFF_FFFF_FFFFu64 - self.r.below(3) } else { self.r.below(1 << 40) };
+                            f.extend_from_slice(&t.to_le_bytes()[..6]);
+                        }
+                        7 => f.extend_from_slice(&[0x50, 0x01, 0x01, 0x07, 0x00, 0x07, 0x00, 0x00]),
+                        _ => f.extend_from_slice(&[0x3c, 0x01, 0x06]),
+                    }
+                }
+            }
+            26 => {
+                f.push(*self.r.pick(&[7u8, 8, 9, 10, 11, 12]));
+                match self.r.below(4) {
+                    0 => f.extend_from_slice(&[0x14, 0x00, 0x06]),
+                    1 => f.extend_from_slice(&[0x14, 0x00, 0x00, 0x01, 0x04]),
+                    2 => f.extend_from_slice(&[0x14, 0x00, 0x01, 0x01, 0x00, 0x00, 0x01]),
+                    _ => f.extend_from_slice(&[0x1e, 0x00, 0x06]),
+                }
+            }
+            27..=29 => {
+                f.push(if self.r.chance(1, 2) { 20 } else { 21 });
+                for v in [2u8, 3, 4] {
+                    if self.r.chance(1, 2) {
+                        f.extend_from_slice(&[0x3c, v, 0x06]);
+                    }
+                }
+                if self.r.chance(1, 8) {
+                    f.extend_from_slice(&[0x3c, 0x01, 0x06]);
+                }
+            }
+            30 => {
+                f.push(*self.r.pick(&[23u8, 24, 13, 14]));
+                if self.r.chance(1, 6) {
+                    f.extend_from_slice(&[0x3c, 0x01, 0x06]);
+                }
+            }
+            31 => f.push(24),
+            32 => f.push(*self.r.pick(&[15u8, 16, 17, 18, 19, 22, 25, 26, 27, 28, 29, 30])),
+            33 => f.push(*self.r.pick(&[31u8, 70, 128, 131, 255])), // unknown function codes
+            34 => {
+                // a response function code sent as a request
+                f.push(*self.r.pick(&[129u8, 130]));
+                let n = self.r.below(4) as usize;
+                f.extend(self.r.bytes(n));
+            }
+            35 => {
+                // bad control flags
+                f[0] = *self.r.pick(&[0x80u8, 0x40, 0x00, 0xD0, 0xE0]) | seq;
+                f.push(*self.r.pick(&[1u8, 2, 3, 0]));
+            }
+            36 => {
+                f.truncate(if self.r.chance(1, 2) { 1 } else { 0 });
+            }
+            _ => {
+                // malformed objects under a function that takes objects
+                f.push(*self.r.pick(&[1u8, 2, 3, 4, 5, 6, 7, 20, 21]));
+                f.extend(malformed_objects(&mut self.r));
+            }
+        }
+        self.rx(src, dst, f);
+    }
+
+    fn repeat_last(&mut self) {
+        if let Some((src, dst, f)) = self.last.clone() {
+            let n = if self.r.chance(4, 5) { 1 } else { 2 };
+            for _ in 0..n {
+                self.line(&format!("rx {} {} {}", src, dst, hex(&f)));
+            }
+        } else {
+            self.request();
+        }
+    }
+
+    fn confirm(&mut self) {
+        let uns = self.r.chance(1, 2);
+        let delta = match self.r.below(10) {
+            0 => 1,
+            1 => 15,
+            2 => self.r.below(16),
+            _ => 0,
+        };
+        let src = self.pick_src();
+        self.line(&format!("cfm {} {} {}", if uns { "uns" } else { "sol" }, delta, src));
+    }
+
+    fn tick(&mut self) {
+        let base = match self.r.below(6) {
+            0 | 1 => self.cfg_ctimeout,
+            2 => self.cfg_stimeout,
+            3 => self.cfg_rdelay,
+            4 => self.cfg_keepalive.unwrap_or(1000),
+            _ => self.r.range(1, 3000),
+        };
+        let t = match self.r.below(5) {
+            0 => base.saturating_sub(1).max(1),
+            1 | 2 => base,
+            3 => base + 1,
+            _ => self.r.range(1, base.max(2)),
+        };
+        self.line(&format!("tick {t}"));
+    }
+
+    fn txn(&mut self) {
+        if self.points.is_empty() {
+            return;
+        }
+        let n = self.r.range(1, 3);
+        let mut s = String::from("txn");
+        for _ in 0..n {
+            let (is_bin, idx) = *self.r.pick(&self.points.clone());
+            self.next_time += self.r.range(1, 70000);
+            let flags = if self.r.chance(3, 4) { 0x01 } else { *self.r.pick(&[0x00u8, 0x03, 0x05, 0x41, 0x21]) };
+            if is_bin {
+                s += &format!(" bin:{}:{}:{}:{}", idx, self.r.below(2), flags, self.next_time);
+            } else {
+                let v: i64 = match self.r.below(8) {
+                    0 => *self.r.pick(&[i32::MAX as i64, i32::MIN as i64, i32::MAX as i64 + 1, i32::MIN as i64 - 1, 0]),
+                    _ => self.r.range(0, 100000) as i64 - 50000,
+                };
+                s += &format!(" an:{}:{}:{}:{}", idx, v, flags, self.next_time);
+            }
+        }
+        self.line(&s);
+    }
+}
+
+pub fn gen_cfg(r: &mut Rng) -> (String, u64, u64, u64, Option<u64>) {
+    let sol = *r.pick(&[249u16, 249, 300, 512, 2048]);
+    let unsol = *r.pick(&[249u16, 300, 2048]);
+    let unsolicited = r.chance(1, 2);
+    let retries = *r.pick(&["none", "0", "1", "3"]);
+    let ctimeout = *r.pick(&[5000u64, 1009]);
+    let stimeout = *r.pick(&[5000u64, 2003]);
+    let rdelay = *r.pick(&[5000u64, 3001]);
+    let keepalive = *r.pick(&[None, None, Some(60000u64), Some(7001)]);
+    let s = format!(
+        "cfg sol={} unsol={} unsolicited={} retries={} ctimeout={} stimeout={} rdelay={} keepalive={} anymaster={} broadcast={} selfaddr={} maxctl={} evmax={}",
+        sol,
+        unsol,
+        unsolicited as u8,
+        retries,
+        ctimeout,
+        stimeout,
+        rdelay,
+        keepalive.map(|k| k.to_string()).unwrap_or("none".to_string()),
+        r.chance(1, 6) as u8,
+        r.chance(5, 6) as u8,
+        r.chance(1, 6) as u8,
+        *r.pick(&["none", "none", "none", "0", "1", "2"]),
+        *r.pick(&[0u16, 1, 2, 5, 10]),
+    );
+    (s, ctimeout, stimeout, rdelay, keepalive)
+}
+
+pub fn gen(thorough: bool, seed: u64, w: &mut dyn Write, gc: GenCfg) {
+    let mut root = Rng::new(seed ^ 0x0075_7473);
+    let n = if thorough { 60000 } else { 3000 };
+    for case in 0..n {
+        let mut r = root.fork();
+        writeln!(w, "# case {case} kind=session").unwrap();
+        let (cfg, ct, st, rd, ka) = gen_cfg(&mut r);
+        writeln!(w, "{cfg}").unwrap();
+        let with_db = gc.with_db;
+        let mut g = G {
+            r, w, seq: 0, last: None, last_select: None, cfg_ctimeout: ct, cfg_stimeout: st, cfg_rdelay: rd,
+            cfg_keepalive: ka, gc: GenCfg { with_db }, next_time: 1000, points: Vec::new(),
+        };
+        g.seq = g.r.below(16) as u8;
+        if g.gc.with_db {
+            let np = g.r.range(0, 6);
+            for _ in 0..np {
+                let is_bin = g.r.chance(1, 2);
+                let idx = if g.r.chance(1, 6) { *g.r.pick(&[255u16, 256, 65535, 1000]) } else { g.r.below(8) as u16 };
+                let class = g.r.below(4);
+                g.line(&format!("{} {} {}", if is_bin { "addbin" } else { "addan" }, idx, class));
+                g.points.push((is_bin, idx));
+            }
+        }
+        if g.r.chance(1, 3) {
+            let l = (0..g.r.range(1, 4)).map(|_| g.r.pick(&[0u8, 0, 0, 1, 2, 4, 5, 8, 9]).to_string()).collect::<Vec<_>>().join(",");
+            g.line(&format!("ctl {l}"));
+        }
+        if g.r.chance(1, 4) {
+            let b = g.r.below(16);
+            g.line(&format!("appiin {b}"));
+        }
+        if g.r.chance(1, 5) {
+            let v = g.r.below(3);
+            g.line(&format!("restart {v}"));
+        }
+        if g.r.chance(1, 5) {
+            let v = g.r.below(3);
+            g.line(&format!("timeres {v}"));
+        }
+        if g.r.chance(1, 5) {
+            let v = g.r.below(70000) % 65536;
+            g.line(&format!("delay {v}"));
+        }
+        let len = g.r.range(3, 40);
+        for _ in 0..len {
+            match g.r.below(100) {
+                0..=39 => g.request(),
+                40..=49 => g.repeat_last(),
+                50..=67 => g.confirm(),
+                68..=84 => g.tick(),
+                85..=94 => {
+                    if g.gc.with_db { g.txn() } else { g.request() }
+                }
+                95..=96 => g.line("cut"),
+                97 => {
+                    let b = g.r.below(16);
+                    g.line(&format!("appiin {b}"));
+                }
+                _ => {
+                    let l = (0..g.r.range(1, 3)).map(|_| g.r.pick(&[0u8, 0, 1, 2, 4, 8]).to_string()).collect::<Vec<_>>().join(",");
+                    g.line(&format!("ctl {l}"));
+                }
+            }
+        }
     }
 }
